@@ -55,6 +55,23 @@ UNITS = [
            "all(implies(first(self.rules[k][0]) >= _i0, self.rules[k][0] not in is_distinct) "
            "for k in range(len(self.rules)))"]}}),
 
+  # the direction C19 needs, proved for every rule list: if the function returns normally, all rules of
+  # every predicate agree on `distinct` (so an inconsistent program is always rejected).  Invariant: every
+  # rule seen so far carries the flag recorded for its predicate.
+  unit(U, 'LogicaProgram.CheckDistinctConsistency', name='LogicaProgram.CheckDistinctConsistency[accepts-only-consistent]',
+       props=['C19'], params=[],
+       fields={'self.rules': 'list[tuple[str,Rule]]'}, locals={'is_distinct': 'dict[str,bool]'},
+       abstract_exprs={"'distinct_denoted' in r": ('dd', ['r'], 'bool'), "r['full_text']": ('ft', ['r'], 'str')},
+       ufs={'dd': (['Rule'], 'bool'), 'ft': (['Rule'], 'str')},
+       calls={'color.Format': 'color.Format2!ext'},
+       ensures=["all(all(implies(self.rules[i][0] == self.rules[j][0], dd(self.rules[i][1]) == dd(self.rules[j][1])) "
+                "for j in range(len(self.rules))) for i in range(len(self.rules)))"],
+       may_raise={'RuleCompileException': "True"},
+       loops={0: {'inv': [
+           "all(self.rules[k][0] in is_distinct and is_distinct[self.rules[k][0]] == dd(self.rules[k][1]) "
+           "for k in range(_i0))"]}}),
+  unit('common/color.py', 'color.Format2!ext', external=True, pure=True, params=['s', 'd'],
+       types={'s': 'str', 'd': 'dict[str,str]'}, fields={}, returns='str'),
   unit(U, 'Annotations.With', props=['C08'], params=['predicate_name'], types={'predicate_name': 'str'},
        fields=ANN, returns='bool', retype={},
        calls={'color.Format': 'color.Format!ext'},
